@@ -64,6 +64,8 @@ Record class_desc := {
   cd_params : list string;      (* members whose value the constructors derive from their parameters *)
   cd_init : list (string * init_kind);        (* how every member gets its first value *)
   cd_ctor_effects : list effect;              (* what the constructors (of the class and of its bases) do to statics / globals *)
+  cd_arg_shared : list string;                (* members that SHARE STORAGE with an argument of a constructor / setter (logical copy of a
+                                                 reference-counted array, reference / pointer capture) instead of holding a value copy *)
   cd_copy_effects : list effect;              (* what copy-construction does to the SOURCE / shared heap *)
   cd_rc : option rc_desc;
   cd_methods : list method_desc }.
@@ -134,9 +136,12 @@ Definition ctor_ok_b (d : class_desc) (x : string) : bool := negb (mem x (cd_par
 Definition init_consistent_b (d : class_desc) : bool :=
   forallb (fun xk => match snd xk with InitParam => mem (fst xk) (cd_params d) | _ => true end) (cd_init d).
 
+(* the member does not share storage with an object outside the lineage (a constructor / setter argument the caller still owns) *)
+Definition arg_ok_b (d : class_desc) (x : string) : bool := negb (mem x (cd_arg_shared d)).
+
 (* a member whose value is, in every object of every history, the one its construction parameters gave it *)
 Definition stable_b (d : class_desc) (x : string) : bool :=
-  copy_ok_b d x && assign_ok_b d x && negb (written_b d x) && ctor_ok_b d x.
+  copy_ok_b d x && assign_ok_b d x && negb (written_b d x) && ctor_ok_b d x && arg_ok_b d x.
 
 Definition pure_b (m : method_desc) : bool := forallb benign_effect_b (m_effects m).
 
@@ -169,6 +174,10 @@ Definition method_rf_b (m : method_desc) : bool := m_const m && forallb rf_benig
 Definition randomized_b (m : method_desc) : bool :=
   existsb (fun e => match e with WRandom _ => true | _ => false end) (m_effects m).
 Definition claimed_b (m : method_desc) : bool := m_const m && negb (randomized_b m).
+
+(* argument-sharing members that a claimed operation reads *)
+Definition arg_shared_offenders (d : class_desc) : list string :=
+  filter (fun x => existsb (fun m => claimed_b m && mem x (m_reads m)) (cd_methods d)) (cd_arg_shared d).
 
 Definition sc_offenders (d : class_desc) : list string :=
   map m_name (filter (fun m => claimed_b m && negb (method_sc_b d m)) (cd_methods d)).
